@@ -392,7 +392,18 @@ class Builder:
                 self.canaries.append((key, self.instance, 'loop%d' % (li + 1)))
         # --- positional insertions
         for (kind, arg), lines in c.ats:
-            if kind in ('before', 'after'):
+            if kind in ('each before', 'each after'):
+                # the same ghost text at every occurrence of the anchor (at least one)
+                p, cnt = lo, 0
+                while True:
+                    p = t.find(arg, p, hi)
+                    if p < 0:
+                        break
+                    ins(p if kind == 'each before' else p + len(arg), lines)
+                    p += len(arg); cnt += 1
+                if cnt == 0:
+                    self.problems.append('%s: anchor `%s` not found' % (key, arg))
+            elif kind in ('before', 'after'):
                 cnt = t.count(arg, lo, hi)
                 if cnt != 1:
                     self.problems.append('%s: anchor `%s` occurs %d times' % (key, arg, cnt))
